@@ -1,19 +1,19 @@
-SPECIFICATION SimSpec
+SPECIFICATION Spec
 CONSTANTS
-  WorkerCpus <- B_Workers
-  WorkerGroup <- B_Groups
-  WorkerLife <- B_Life
-  MaxTicks = 0
-  Menu <- B_Menu
-  OpenJobs <- B_Open
-  Classes <- B_Classes
-  MaxLosses = 1
-  MaxCancels = 0
-  MaxFails = 1
-  MaxLaunchFails = 1
+  WorkerCpus <- T_Workers
+  WorkerGroup <- T_Groups
+  WorkerLife <- T_Life
+  MaxTicks = 3
+  Menu <- T_Menu
+  OpenJobs <- T_Open
+  Classes <- T_Classes
+  MaxLosses = 0
+  MaxCancels = 1
+  MaxFails = 0
+  MaxLaunchFails = 0
   PfReserve = 0
-  PfMax = 1
-  Eager = FALSE
+  PfMax = 2
+  Eager = TRUE
   Journaling = FALSE
 CHECK_DEADLOCK FALSE
 INVARIANTS
@@ -47,3 +47,8 @@ INVARIANTS
   C14_NoAbortWithin
   C05_MnExclusive
   C05_MnWorkersIdle
+  C01_OutcomeAtRest
+  C02_QuiescentOk
+  C08_OthersNotStuck
+PROPERTIES
+  StepProps
